@@ -162,6 +162,8 @@ def range_stream(res, drv, tier, seed):
         canon = {'dom': dom, 'cliques': cl, 'scale': scale, 'pots': gmgen.enc_pots(pots)}
         res.case(canon, True)
         res.count('range stream')
+        if sum(gmgen.brute_joint(dom, pots).values()) == 0:
+            continue        # the zeros rule out every joint assignment (Z = 0: NaN in code and model alike)
         # the same unit-scale potentials with one constant added per clique, the constants chosen around the edge of the range of
         # exp() (log(DBL_MAX) = 709.78, log(min subnormal) = -745.1) and far outside it: the answer must not change at all
         base = run_impl(model, pots, sched)
